@@ -251,7 +251,8 @@ class SubsetSICDReader(SICDTypeReader):
         parent_segment = reader.get_data_segment_as_tuple()[index]
         subset_definition = (slice(*row_bounds), slice(*column_bounds))
         data_segment = SubsetSegment(
-            parent_segment, subset_definition, coordinate_basis='formatted', close_parent=close_parent)
+            parent_segment, subset_definition, coordinate_basis='formatted', squeeze=False,
+            close_parent=close_parent)
         SICDTypeReader.__init__(self, data_segment, sicd)
 
     @property
